@@ -4,6 +4,9 @@
   targets of the design vector equal the coupling values computed from it (checked for several bounds of the coupling variables);
 * mask / unmask: on a real formulation, mask(unmask(y)) = y and unmask(mask(x), x_full=x) = x for sub-lists of the design variables in
   the same order, against a brute-force reading of the variable layout.
+* MDF couplings: on a real MDF formulation (strongly coupled pair + a weak coupling, three main MDAs) whose design space holds the
+  design variable and a chosen subset of the couplings, MDF._remove_couplings_from_ds must leave no coupling of the MDA (weak or
+  strong) in the design space and keep the other variables.
 Deterministic enumeration; witness = the scenario.
 """
 from __future__ import annotations
@@ -82,7 +85,41 @@ def run_mask(sizes, subset):
     return None
 
 
+def run_mdf(mda_name, present):
+    from gemseo.algos.design_space import DesignSpace
+    from gemseo.disciplines.analytic import AnalyticDiscipline
+    from gemseo.formulations.mdf import MDF
+
+    d1 = AnalyticDiscipline({"y1": "0.3*y2 + x + 1"}, name="D1")
+    d2 = AnalyticDiscipline({"y2": "0.2*y1 - 0.5*x + 2", "w": "x**2 + 0.1*y1"}, name="D2")
+    d3 = AnalyticDiscipline({"f": "w**2 + y1 + y2 + x"}, name="D3")
+    ds = DesignSpace()
+    ds.add_variable("x", lower_bound=-2.0, upper_bound=2.0, value=0.5)
+    with warnings.catch_warnings():
+        warnings.simplefilter("ignore")
+        f = MDF([d1, d2, d3], "f", ds, main_mda_name=mda_name)
+        space = f.optimization_problem.design_space
+        for n in present:
+            if n not in space:
+                space.add_variable(n, lower_bound=-10.0, upper_bound=10.0, value=1.0)
+        before = list(space.variable_names)
+        f._remove_couplings_from_ds()
+    couplings = set(f.mda.coupling_structure.all_couplings)
+    after = list(space.variable_names)
+    left = [n for n in after if n in couplings]
+    expected = [n for n in before if n not in couplings]
+    if left or after != expected:
+        return {"what": "MDF._remove_couplings_from_ds leaves coupling variables in the design space (or drops another variable)", "main_mda": mda_name,
+                "couplings": sorted(couplings), "design_space_before": before, "design_space_after": after, "expected": expected}
+    return None
+
+
+MDF_CASES = [(m, list(p)) for m in ("MDAChain", "MDAGaussSeidel", "MDAJacobi") for r in range(4) for p in itertools.combinations(("y1", "y2", "w"), r)]
+
+
 def scenarios():
+    for m, p in MDF_CASES:
+        yield {"kind": "mdf", "main_mda": m, "present": p}
     for (lb, ub), normalize, point in itertools.product(BOUNDS, (True, False), POINTS):
         yield {"kind": "consistency", "lb": lb, "ub": ub, "normalize": normalize, "point": list(point)}
     for sizes in ((1, 2, 1), (2, 1, 3)):
@@ -95,13 +132,15 @@ def _run(s):
     try:
         if s["kind"] == "consistency":
             return run_consistency(s["lb"], s["ub"], s["normalize"], tuple(s["point"]))
+        if s["kind"] == "mdf":
+            return run_mdf(s["main_mda"], s["present"])
         return run_mask(tuple(s["sizes"]), tuple(s["subset"]))
     except Exception as e:  # noqa: BLE001
         return {"exception": repr(e)}
 
 
 def replay(ob, seed=0):
-    kind = "consistency" if "consistency_constraint" in ob.func else "mask"
+    kind = "consistency" if "consistency_constraint" in ob.func else ("mdf" if "_remove_couplings_from_ds" in ob.func else "mask")
     for s in scenarios():
         if s["kind"] != kind:
             continue
